@@ -7,8 +7,6 @@ UNITS = {
   # pubfree (thread mode): cross-thread free / privatisation / re-allocation on one slab block
   'pub2': dict(wrapper='w_pub.cpp', mode='lcs', unroll=2, cxxflags=MCXX, prune=True, cut=['adjustPositionInBin'],
               threads={'vp_thr_free': ['a', 'b'], 'vp_thr_owner': ['o'], 'vp_thr_owner2': ['o'], 'vp_thr_adopt': ['o']}),
-  'pub': dict(wrapper='w_pub.cpp', mode='lcs', unroll=3, cxxflags=MCXX, prune=True, cut=['adjustPositionInBin'],
-              threads={'vp_thr_free': ['a', 'b'], 'vp_thr_owner': ['o'], 'vp_thr_owner2': ['o'], 'vp_thr_adopt': ['o']}),
 }
 HARNESSES = [
   dict(name='sizeclass', unit='front', harness='h_sizeclass.c', cbmc=['--unwind', '40'], scenarios=[{'PART': 1}, {'PART': 2}, {'PART': 3, 'CLASSES': ','.join(map(str, CLASSES))}],
@@ -22,11 +20,14 @@ HARNESSES = [
        desc='allocateAligned strategy selection for symbolic (size, power-of-two alignment <= 2^30); inner allocator cut to a contract stub',
        bounds={'size': 'RANGE0: 0..16383, RANGE1: 16384..2^46', 'alignment': '2^0..2^30', 'cut': 'internalPoolMalloc, getFromLLOCache, getTLS'}),
   dict(name='pubfree', unit='pub2', harness='h_pub.c', defines={'ROUNDS': 2}, scenarios=[{'SC': 0}, {'SC': 3}, {'SC': 5}],
-       scenarios_thorough=[{'SC': 0}, {'SC': 6}, {'SC': 3}, {'SC': 5}, {'SC': 1}, {'SC': 4}], timeout=1500, cbmc=['--unwind', '8', '--object-bits', '12'],
-       thorough_override=dict(timeout=3600),
+       scenarios_thorough=[{'SC': 0}, {'SC': 6}, {'SC': 3}, {'SC': 5}], timeout=1500, cbmc=['--unwind', '8', '--object-bits', '12'],
+       thorough_override=dict(defines={'ROUNDS': 3}, timeout=3600),
        desc='cross-thread free on one slab block (thread mode): Block::freePublicObject || Bin::getPrivatizedFreeListBlock + privatizePublicFreeList + allocateFromFreeList (owner) or privatizeOrphaned (adopter of an orphaned block): every freed object ends in exactly one place, nothing handed out twice, allocatedCount consistent, block mailed exactly once while its public list is non-empty, UNUSABLE sentinel never dereferenced',
-       bounds={'threads': '2 (quick) / 3 (thorough SC1, SC4)', 'free_rounds': 2, 'forced_rounds': 2, 'unroll': 2, 'objects': '3 (1-2 freed concurrently)', 'cut': 'Block::adjustPositionInBin (owner-private state, float arithmetic)',
-               'scenarios': 'SC0 free||owner, SC3 orphaned: free||adopter, SC5 free||free; thorough: SC6 free onto a non-empty public list||owner, SC1 free||free||owner, SC4 orphaned: free||free||adopter'}),
+       bounds={'threads': 2, 'free_rounds': '2 (thorough 3)', 'forced_rounds': 2, 'unroll': 2, 'objects': '3 (1-2 freed concurrently)', 'cut': 'Block::adjustPositionInBin (owner-private state, float arithmetic)',
+               'scenarios': 'SC0 free||owner, SC3 orphaned: free||adopter, SC5 free||free; thorough adds SC6 free onto a non-empty public list||owner'}),
+  dict(name='pubfree_3t', unit='pub2', harness='h_pub.c', defines={'ROUNDS': 2}, scenarios=[{'SC': 1}, {'SC': 4}], tiers=['thorough'], timeout=3600, cbmc=['--unwind', '8', '--object-bits', '12'],
+       desc='pubfree with three threads: free(o0) || free(o1) || owner, and on an orphaned block free || free || adopter; same oracle',
+       bounds={'threads': 3, 'free_rounds': 2, 'forced_rounds': 2, 'unroll': 2, 'objects': 3}),
 ]
 MANIFEST = dict(
   level_text='Bounded symbolic execution of the real tbbmalloc front-end kernels: size-class functions for every request size; one inductive step of the slab (Block) operations from an arbitrary state satisfying the representation invariant, for every size class; allocateAligned strategy selection for symbolic size/alignment with the inner allocator cut to its contract; cross-thread free of slab objects (freePublicObject || owner privatisation / orphan adoption) on one block under all bounded interleavings of 2-3 threads. Sequential call histories are covered by the inductive-step argument, not by exploration.',
